@@ -112,10 +112,17 @@ def check(run):
         pts = np.array([[core.snap(rng.uniform(-2, 2), 10) for _ in range(3)] for _ in range(3)])
         one_case(run, specs, t, gamma, pts, a, b)
         run.count("zero-diagonal density matrix")
+    from checks import c09 as _c09
+    _c09.positional_arguments_case(run, rng, only=('stress', 'ehrenfest'))
     representation_cases(run)
 
 
 def replay(run, rep):
+    if rep.get("case") == "positional":
+        from checks import c09 as _c09
+        n0_ = len(run.violations)
+        _c09.positional_arguments_case(run, run.rng, only=('stress', 'ehrenfest'))
+        return len(run.violations) == n0_
     n0 = len(run.violations)
     if rep.get("case") == "representation":
         representation_cases(run)
